@@ -590,6 +590,50 @@ def th_random(rng, sid, T):
                           ops=ops, kind=kind), T)
 
 
+def th_plan(script, T):
+    """What a SCRIPT aims at (the vacuity guard judges the scripts, not the code's reaction to them)."""
+    c = dict(ticks=0, restarts=0, stop_in_sleep=0, stop_in_handler=0, stop_gt2=0, stop_gt10=0, stop_gt20=0,
+             stop_at_tick_instant=0, stop_at_handler_return=0, stop_when_stopped=0, stop_before_first_tick=0,
+             stop_then_start_same_instant=0, relinks=0, wraps=0, ind_frames=0)
+    durs = []
+    prev = None
+    nstart = 0
+    for op in script["ops"]:
+        if op["op"] == "start":
+            nstart += 1
+            durs = op.get("durs", [])
+            c["ticks"] += len(durs)
+            c["wraps"] += 1 if op["fn"] + len(durs) >= HYPER else 0
+            first = -(-op["fn"] // op["period"]) * op["period"]
+            c["ind_frames"] += 1 if (op["links"] and first < op["fn"] + len(durs)) else 0
+            if prev == "stop" and op.get("dt") == 0:
+                c["stop_then_start_same_instant"] += 1
+        elif op["op"] == "links":
+            c["relinks"] += 1
+        elif op["op"] == "stop":
+            if prev == "stop":
+                c["stop_when_stopped"] += 1
+            elif "tick" not in op:
+                c["stop_before_first_tick"] += 1
+            else:
+                d = durs[op["tick"] - 1]
+                off = op.get("off", 0)
+                if off < d:
+                    c["stop_in_handler"] += 1
+                    c["stop_gt2"] += 1 if d - off > 2 * T else 0
+                    c["stop_gt10"] += 1 if d - off > 10 * T else 0
+                    c["stop_gt20"] += 1 if d - off > 20 * T else 0
+                elif off == d:
+                    c["stop_at_handler_return"] += 1
+                elif off < max(d, T):
+                    c["stop_in_sleep"] += 1
+                if off in (0, max(d, T)):
+                    c["stop_at_tick_instant"] += 1
+        prev = op["op"]
+    c["restarts"] = max(0, nstart - 1)
+    return c
+
+
 def th_observe(tr, T):
     """What a log exercises (for the vacuity guard and the evidence): where the stop() calls fell."""
     c = dict(ticks=0, inds=0, stop_calls=0, stop_in_sleep=0, stop_in_handler=0, stop_gt2=0, stop_gt10=0,
@@ -867,12 +911,13 @@ def th_code_stage(ctx, replay_only):
             ctx.distinct(json.dumps(["threads", s.get("kind"), s["tie"], [[op["op"], op.get("tick"), op.get("off"), op.get("dt")]
                                                                             for op in s["ops"]]]))
     ctx.extra["threads_observed"] = obs
-    if replay_only is None and not ctx.violations:
-        blind = [k for k in ("ticks", "inds", "stop_in_sleep", "stop_in_handler", "stop_gt2", "stop_gt10",
-                             "stop_at_tick_instant", "stop_at_handler_return", "stop_when_stopped", "restarts", "wraps",
-                             "stop_then_start_same_instant", "relinks") if obs.get(k, 0) == 0]
-        if blind:
-            raise tlc.MachineryError("threads scripts exercise too little: no %s" % blind)
+    plan = {}
+    for s in scripts:
+        for k, n in th_plan(s, Tg).items():
+            plan[k] = plan.get(k, 0) + n
+    ctx.extra["threads_planned"] = plan
+    if replay_only is None and min(plan.values()) == 0:
+        raise tlc.MachineryError("threads scripts exercise too little: %s" % plan)
     if len(traces) > 3:
         ctx.violation("C09/period/varies", "threads: first intervals differ between runs: %s ..." % sorted(traces)[:8],
                       dict(intervals=sorted(traces)[:50]))
